@@ -1,4 +1,118 @@
-From Coq Require Import List Bool ZArith.
-From Cylc Require Import Base.Util Model.Xtrig.
+(* Props/C33.v — C33 "Xtriggers are called with the documented discipline".
+   Model: Model/Xtrig.v (hand model of XtriggerManager), tied to the real class by
+   the "xtrig" correspondence stream (stub pool, virtual clock).
+   Property text: for each xtrigger function signature, at most one call is in
+   progress at a time, consecutive calls are at least the configured interval
+   apart, and once a call succeeds the function is not called again for that
+   signature while any task still needs it.  Every task depending on a succeeded
+   signature becomes satisfied.
+   Histories: any list of call_xtriggers_async(task, now) / callback(sig, ok) /
+   housekeep(tasks), from the empty manager, with ARBITRARY clock readings.
+   The event trace of a history lists submissions to the process pool
+   (EvSubmit sig now interval), successes (EvSucceed) and housekeeping-forgets
+   (EvForget). *)
+From Coq Require Import List Bool ZArith Lia.
+From Cylc Require Import Base.Util Model.Xtrig Proofs.XtrigProofs.
 Import ListNotations.
-Theorem c33_placeholder : True. Proof. exact I. Qed.
+Open Scope Z_scope.
+
+(* ---- 1. at most one call in progress per signature ---- *)
+(* `active` (signatures waiting for their callback) never holds a signature twice ... *)
+Theorem c33_one_active : forall ts ops st evs,
+  xrun (xinit ts) ops = (st, evs) -> NoDup (s_active st).
+Proof.
+  intros ts ops st evs E. eapply xrun_active_NoDup; [exact E|]. cbn. constructor.
+Qed.
+
+(* ... and a signature is handed to the process pool only when it is not active
+   (and has not succeeded) at that moment *)
+Theorem c33_submit_only_when_idle : forall st o st' evs s now iv,
+  xstep st o = (st', evs) -> In (EvSubmit s now iv) evs ->
+  ~ In s (s_active st) /\ ~ In s (s_sat st).
+Proof. intros st o st' evs s now iv E H. exact (xstep_submit_guard _ _ _ _ E s now iv H). Qed.
+
+(* ---- 2. the interval ---- *)
+(* [expect s None pre] = Some (t + interval) when the last event about s in [pre]
+   is a submission at time t, None when it is a housekeeping-forget (or nothing).
+   Any later submission of s happens at a clock reading >= that value. *)
+Theorem c33_interval : forall ts ops st evs s pre now iv post,
+  xrun (xinit ts) ops = (st, evs) ->
+  evs = pre ++ EvSubmit s now iv :: post ->
+  forall t, expect s None pre = Some t -> t <= now.
+Proof.
+  intros ts ops st evs s pre now iv post E -> t Ht.
+  destruct (xrun_interval s ops None _ _ _ E) as [H _]; [intros ? [=]|].
+  apply intervals_ok_app in H. destruct H as [_ H]. cbn in H. destruct H as [H _]. now apply H.
+Qed.
+
+(* The guarantee does not span a housekeeping-forget: after a signature has
+   succeeded and no task needs it any more it is forgotten together with its
+   t_next_call entry, and a task that needs it later re-commences it at once.
+   (interval 10: submitted at 0, succeeded, forgotten, needed again, submitted at 2.)
+   Recorded as the boundary of the guarantee, not raised as a defect. *)
+Definition c33_interval_unconditional : Prop :=
+  forall ts ops st evs s t1 iv1 t2 iv2 pre mid post,
+    xrun (xinit ts) ops = (st, evs) ->
+    evs = pre ++ EvSubmit s t1 iv1 :: mid ++ EvSubmit s t2 iv2 :: post ->
+    (forall n i, ~ In (EvSubmit s n i) mid) -> t1 + iv1 <= t2.
+
+Theorem c33_interval_unconditional_refuted : ~ c33_interval_unconditional.
+Proof.
+  intros H.
+  pose (e := {| e_label := 0%nat; e_sig := 0%nat; e_clock := None; e_intvl := 10; e_sat := false |}).
+  specialize (H [ {| x_id := 0%nat; x_entries := [e] |}; {| x_id := 1%nat; x_entries := [e] |} ]
+                [XCall 0%nat 0; XCallback 0%nat true; XCall 0%nat 1; XHousekeep [0%nat]; XCall 1%nat 2]
+                _ _ 0%nat 0 10 2 10 [] [EvSucceed 0%nat; EvForget 0%nat] [] eq_refl eq_refl).
+  assert (Hm : forall n i, ~ In (EvSubmit 0%nat n i) [EvSucceed 0%nat; EvForget 0%nat])
+    by (intros n i [X|[X|[]]]; discriminate).
+  specialize (H Hm). lia.
+Qed.
+
+(* ---- 3. no call after success while a task still needs it ---- *)
+(* [succ_state s false pre] = true when the last success of s in [pre] has not
+   been followed by a housekeeping-forget of s.  No submission of s then. *)
+Theorem c33_no_call_after_success : forall ts ops st evs s pre now iv post,
+  xrun (xinit ts) ops = (st, evs) ->
+  evs = pre ++ EvSubmit s now iv :: post ->
+  succ_state s false pre = false.
+Proof.
+  intros ts ops st evs s pre now iv post E ->.
+  destruct (xrun_no_resubmit s ops false _ _ _ E) as [H _]; [intros [=]|].
+  apply no_resubmit_ok_app in H. destruct H as [_ H]. cbn in H. destruct H as [H _]. now apply H.
+Qed.
+
+(* and housekeeping forgets a succeeded signature only when none of the tasks it
+   was given has an unsatisfied xtrigger with that signature *)
+Theorem c33_forget_only_when_unneeded : forall st o st' evs s,
+  xstep st o = (st', evs) -> In (EvForget s) evs ->
+  exists tids, o = XHousekeep tids /\ In s (s_sat st) /\ ~ In s (needed_sigs tids (s_tasks st)).
+Proof. exact forget_only_unneeded. Qed.
+
+(* ---- 4. dependents of a succeeded signature become satisfied ---- *)
+(* call_xtriggers_async(task): every unsatisfied label of that task whose
+   signature has succeeded is satisfied afterwards ... *)
+Theorem c33_dependents_satisfied : forall st tid now st' evs t e,
+  xstep st (XCall tid now) = (st', evs) ->
+  find_task tid (s_tasks st) = Some t -> In e (x_entries t) -> e_sat e = false ->
+  In (e_sig e) (s_sat st) ->
+  forall t', In t' (s_tasks st') -> x_id t' = tid -> label_done (e_label e) (x_entries t').
+Proof. exact xstep_call_dependents. Qed.
+
+(* ... and until then the success cannot be forgotten: a signature that a task
+   given to housekeep still needs survives housekeeping *)
+Theorem c33_needed_survives_housekeeping : forall st tids st' evs s,
+  xstep st (XHousekeep tids) = (st', evs) ->
+  In s (s_sat st) -> In s (needed_sigs tids (s_tasks st)) -> In s (s_sat st').
+Proof. exact xstep_housekeep_keeps. Qed.
+
+(* ---- non-vacuity: two tasks sharing a signature (interval 5) ---- *)
+Example c33_ex_history :
+  let e := {| e_label := 0%nat; e_sig := 0%nat; e_clock := None; e_intvl := 5; e_sat := false |} in
+  let ts := [ {| x_id := 0%nat; x_entries := [e] |}; {| x_id := 1%nat; x_entries := [e] |} ] in
+  let '(st, evs) := xrun (xinit ts)
+     [XCall 0%nat 0; XCall 1%nat 1; XCallback 0%nat false; XCall 1%nat 3; XCall 0%nat 5; XCallback 0%nat true;
+      XCall 0%nat 6; XHousekeep [0%nat; 1%nat]; XCall 1%nat 7; XHousekeep [0%nat; 1%nat]; XCall 1%nat 8] in
+  (evs, s_active st, s_sat st, flags (s_tasks st))
+  = ([EvSubmit 0%nat 0 5; EvSubmit 0%nat 5 5; EvSucceed 0%nat; EvForget 0%nat], [], [],
+     [(0%nat, [(0%nat, true)]); (1%nat, [(0%nat, true)])]).
+Proof. vm_compute. reflexivity. Qed.
